@@ -114,6 +114,7 @@ def elem_term(seq_key, i):
     return Term.atom(f"sub({seq_key},{i})")
 
 
+DC_FIELDS = {}  # dataclass name -> field names (set per analysed program by report.Ctx)
 SIGS = {}  # callable name -> positional parameter names (set per analysed program by report.Ctx)
 
 
@@ -516,6 +517,8 @@ class Evaluator:
             k0 = args[0].key()
             if k0.startswith("[") and k0.endswith("]") and len(args[0].p) == 1:
                 return Term.atom("tuple(" + k0[1:-1] + ")")  # tuple of a list whose elements are known
+        if name == "cast" and len(args) == 2 and not node.keywords:
+            return args[1]  # typing.cast returns its second argument unchanged
         if name in ("len", "len_") and len(args) == 1:  # construct's len_ is len on the context value
             return Term.atom(f"len({args[0].key()})")
         if name == "abs" and len(args) == 1 and args[0].is_const():
@@ -580,6 +583,12 @@ class Evaluator:
         cname = f.id if isinstance(f, ast.Name) else (f.attr if isinstance(f, ast.Attribute) else None)
         if cname == "cls" and isinstance(f, ast.Name) and self.owner:
             cname = self.owner
+        if cname == "get_common_field_args" and isinstance(f, ast.Name) and len(node.args) == 2 and not node.keywords and isinstance(node.args[0], ast.Name) \
+                and DC_FIELDS.get(node.args[0].id):
+            # the helper copies every field of the dataclass from the source by its own name: {f: source.f for f in fields(D)}
+            sk_ = pos[1]
+            if all(x.isidentifier() for x in sk_.replace("~", "").split(".")):
+                return Term.atom(dict_text([], {fl_: f"{sk_}.{fl_}" for fl_ in DC_FIELDS[node.args[0].id]}))
         if cname == "replace" and fname in ("replace", "dataclasses.replace") and len(node.args) == 1 and not star_kw:
             # dataclasses.replace(T, k=v) with T a known constructor call C(...) is C(<T's arguments with k overridden>)
             r_ = self._dc_replace(node.args[0], pos[0], kwd)
